@@ -37,6 +37,9 @@ func (c *CacheConfig) setRestartNeededProps() {
 	c.LockShards.SetRequiresRestart()
 }
 
+// More lock shards than this cannot be meant: the cache allocates one mutex per shard at start-up.
+const maxLockShards = 1 << 20
+
 func (c *CacheConfig) verify() error {
 	if c.MaxCacheSize.Read().Bytes() <= 0 {
 		return fmt.Errorf("cache.max_cache_size must be greater than 0")
@@ -46,6 +49,10 @@ func (c *CacheConfig) verify() error {
 	}
 	if c.LockShards.Read() < 1 {
 		return fmt.Errorf("cache.lock_shards must be at least 1")
+	}
+	if c.LockShards.Read() > maxLockShards {
+		// One mutex is allocated per shard when the cache is created
+		return fmt.Errorf("cache.lock_shards must be at most %d", maxLockShards)
 	}
 	if c.Memory.MemoryBudgetPercent.Read() < 0 || c.Memory.MemoryBudgetPercent.Read() > 100 {
 		return fmt.Errorf("cache.memory.memory_budget_percent must be between 0 and 100")
